@@ -186,51 +186,7 @@ func c01(c *Ctx) {
 		}
 	}
 
-	// R-C01.2 provenance of K
-	helperOK := func(cal *ssa.Function) bool {
-		if cal == nil || cal.Pkg == nil || cal.Pkg.Pkg.Path() != mod+"/registration" {
-			return false
-		}
-		res := cal.Signature.Results()
-		return res.Len() == 2 && namedType(res.At(0).Type(), typesPkg, "NodeInformation") && paramOfType(cal, typesPkg, "FetchNodeCredentialsInfo") != nil
-	}
-	var helperCalls []*ssa.Call
-	for i, src := range flattenPhi(K) {
-		construct := fmt.Sprintf("registration.FetchNodeCredentials K-source#%d", i)
-		if core.IsNilConst(src) {
-			r.OK("R-C01.2", construct+" nil", p.Pos(fn.Pos()), "nil initial value (dereferencing it cannot yield credentials)")
-			continue
-		}
-		call, idx := core.CallResult(src)
-		if call == nil || idx != 0 {
-			r.Bad("R-C01.2", construct, p.Pos(src.Pos()), "record used to build the response is not the result of a load or authorisation call: "+core.ValueName(src))
-			continue
-		}
-		name := core.CalleeName(call.Common())
-		switch {
-		case name == typesPkg+".LoadNodeInformation":
-			idc, i0 := core.CallResult(call.Call.Args[2])
-			good := false
-			if idc != nil && i0 == 0 && core.CalleeName(idc.Common()) == mod+".KeyIdFromPkix" {
-				ap := core.PathOf(idc.Call.Args[0])
-				good = ap.Root == R && ap.HasFields("CertificatePublicKeyPkix")
-			}
-			r.Check(good, "R-C01.2", construct+" LoadNodeInformation", p.Pos(call.Pos()),
-				"record loaded for KeyIdFromPkix(R.CertificatePublicKeyPkix)", "record is loaded for an ID not derived from the validated request's certificate key")
-		case helperOK(call.Common().StaticCallee()):
-			passesR := false
-			for _, arg := range call.Call.Args {
-				if core.Strip(arg) == R {
-					passesR = true
-				}
-			}
-			helperCalls = append(helperCalls, call)
-			r.Check(passesR, "R-C01.2", construct+" "+shortName(name), p.Pos(call.Pos()),
-				"record produced by the authorisation path for the validated info R", "authorisation helper is not called with the validated request info")
-		default:
-			r.Bad("R-C01.2", construct+" "+shortName(name), p.Pos(call.Pos()), "unreviewed source of the record used to build the response")
-		}
-	}
+	kProvenance(c, a, "R-C01.2")
 
 	// R-C01.3 wrapped-info branch
 	c01Wrapped(c, a, gValid)
@@ -587,4 +543,61 @@ func c01Wrapping(c *Ctx) {
 			}
 		}
 	}
+}
+
+// kProvenance checks that every source of the record K used to build the
+// fetch response is a load for the request's key ID or an authorisation call
+// made with the validated request info.
+func kProvenance(c *Ctx, a *fetchAnchors, rule string) {
+	p, r := c.P, c.R
+	fn, K, R := a.fn, a.K, a.R
+	// R-C01.2 provenance of K
+	var helperCalls []*ssa.Call
+	for i, src := range flattenPhi(K) {
+		construct := fmt.Sprintf("registration.FetchNodeCredentials K-source#%d", i)
+		if core.IsNilConst(src) {
+			r.OK(rule, construct+" nil", p.Pos(fn.Pos()), "nil initial value (dereferencing it cannot yield credentials)")
+			continue
+		}
+		call, idx := core.CallResult(src)
+		if call == nil || idx != 0 {
+			r.Bad(rule, construct, p.Pos(src.Pos()), "record used to build the response is not the result of a load or authorisation call: "+core.ValueName(src))
+			continue
+		}
+		name := core.CalleeName(call.Common())
+		switch {
+		case name == typesPkg+".LoadNodeInformation":
+			idc, i0 := core.CallResult(call.Call.Args[2])
+			good := false
+			if idc != nil && i0 == 0 && core.CalleeName(idc.Common()) == mod+".KeyIdFromPkix" {
+				ap := core.PathOf(idc.Call.Args[0])
+				good = ap.Root == R && ap.HasFields("CertificatePublicKeyPkix")
+			}
+			r.Check(good, rule, construct+" LoadNodeInformation", p.Pos(call.Pos()),
+				"record loaded for KeyIdFromPkix(R.CertificatePublicKeyPkix)", "record is loaded for an ID not derived from the validated request's certificate key")
+		case helperOK(call.Common().StaticCallee()):
+			passesR := false
+			for _, arg := range call.Call.Args {
+				if core.Strip(arg) == R {
+					passesR = true
+				}
+			}
+			helperCalls = append(helperCalls, call)
+			r.Check(passesR, rule, construct+" "+shortName(name), p.Pos(call.Pos()),
+				"record produced by the authorisation path for the validated info R", "authorisation helper is not called with the validated request info")
+		default:
+			r.Bad(rule, construct+" "+shortName(name), p.Pos(call.Pos()), "unreviewed source of the record used to build the response")
+		}
+	}
+
+	_ = helperCalls
+}
+
+// helperOK: a registration function (…*FetchNodeCredentialsInfo…) (*NodeInformation, error).
+func helperOK(cal *ssa.Function) bool {
+	if cal == nil || cal.Pkg == nil || cal.Pkg.Pkg.Path() != mod+"/registration" {
+		return false
+	}
+	res := cal.Signature.Results()
+	return res.Len() == 2 && namedType(res.At(0).Type(), typesPkg, "NodeInformation") && paramOfType(cal, typesPkg, "FetchNodeCredentialsInfo") != nil
 }
